@@ -78,26 +78,26 @@ class C14(Prop):
                  "freed flags, Arc strong counts) and a value-semantics specification, for all programs; differential correspondence against the "
                  "real Cow under a counting/quarantining global allocator, element drop counters and Arc::strong_count")
     level_text = ("Theorems (Coq, all programs over all constructors and all (len, cap) incl. empty owned values of capacity 0 and of non-zero "
-                  "capacity, clone, deref, cmp/eq/hash, into_owned, drop, caller-side Arc clone/drop, operations naming consumed handles; "
-                  "NOT with_extra_labels): the explicit-heap model of cow.rs (kind recomputed from (len, cap) as Metadata::kind, every access "
-                  "checking a freed flag) produces, operation by operation, exactly the results, live-block deltas, live-element deltas and Arc "
-                  "strong counts of a value semantics that has no heap (C14_model_meets_spec_partial); hence contents read back are the contents "
-                  "built from, no UseAfterFree/DoubleFree/BadFree/OutOfBounds outcome is reachable, and once every handle is given back every "
-                  "buffer is freed and every Arc's strong count equals the caller's own references (freed iff none). The capacity-0 kind collision "
-                  "is covered (such a value owns nothing). The model is tied to /repo by running the real Cow (SharedString, Cow<[Tracked]>, "
-                  "Cow<[Label]> in Key) and the model on the same generated programs each run, under a counting/quarantining allocator.")
-    level_note = ("Partial by nature and by proof. By nature: this is an ownership-accounting model - pointer arithmetic, alignment, layout "
-                  "computations inside Vec/Arc and the unsafe Send/Sync impls are not modelled (dropping on another thread is exercised on the real "
-                  "code, not modelled; note that `unsafe impl Send for Cow<T> where T: Send` does not require T: Sync although a Shared handle is an "
-                  "Arc<T> - unreachable through the public API, where T is str or [Label]). By proof: the simulation is not proved for WithExtra "
-                  "(Key::with_extra_labels: clone + into_owned + Vec growth + from_owned); the model and the value semantics define it and every "
-                  "run compares it with the real code, but the theorems are stated for programs without it (suffix _partial). The counter form of "
-                  "balance (sum of live-block deltas back to the number of live Arcs) is checked on every run but proved only in its heap form "
-                  "(every buffer freed, strong = caller references). `impl From<Cow<T>> for std::borrow::Cow<T>` requires T: Sized and therefore "
-                  "applies to no Cowable type: the conversion to std Cow is not offered by the API and is not exercised. ZST element vectors "
-                  "(capacity usize::MAX) make from_owned panic after the vector was wrapped in ManuallyDrop, so its elements are never dropped: "
-                  "modelled and observed (z ops), unreachable through the public API, not counted as a finding. Trusted: Coq kernel; hand-written "
-                  "model (tied by differential runs, not by translation); std Vec/String/Arc; the driver's allocator as observer.")
+                  "capacity, clone, deref, cmp/eq/hash, into_owned, conversion to std::borrow::Cow, with_extra_labels (clone + into_owned + Vec "
+                  "growth + from_owned), drop, caller-side Arc clone/drop, operations naming consumed handles): the explicit-heap model of cow.rs "
+                  "(kind recomputed from (len, cap) as Metadata::kind, every access checking a freed flag) produces, operation by operation, exactly "
+                  "the results, live-block deltas, live-element deltas and Arc strong counts of a value semantics that has no heap "
+                  "(C14_model_meets_spec); hence contents read back are the contents built from, no UseAfterFree/DoubleFree/BadFree/OutOfBounds "
+                  "outcome is reachable, and once every handle is given back every buffer is freed, every Arc's strong count equals the caller's "
+                  "own references (freed iff none), and the observed block / element deltas sum to the Arcs the caller still holds and the elements "
+                  "inside them (C14_balanced, C14_balanced_counters). The capacity-0 kind collision is covered (such a value owns nothing). The model "
+                  "is tied to /repo by running the real Cow (SharedString, Cow<[Tracked]>, Cow<[Label]> in Key) and the model on the same generated "
+                  "programs each run, under a counting/quarantining allocator.")
+    level_note = ("Partial by nature: this is an ownership-accounting model - pointer arithmetic, alignment, layout computations inside Vec/Arc "
+                  "and the unsafe Send/Sync impls are not modelled (dropping on another thread is exercised on the real code, not modelled; note "
+                  "that `unsafe impl Send for Cow<T> where T: Send` does not require T: Sync although a Shared handle is an Arc<T> - unreachable "
+                  "through the public API, where T is str or [Label]). Vec growth is modelled up to what the cow can see (zero / non-zero / "
+                  "usize::MAX capacity; lengths above isize::MAX panic with capacity overflow). The std::borrow::Cow conversion is exercised on "
+                  "SharedString and Cow<[Tracked]>; Key does not expose it for its labels. ZST element vectors (capacity usize::MAX) make "
+                  "from_owned panic after the vector was wrapped in ManuallyDrop, so its elements are never dropped: modelled and observed (z ops), "
+                  "unreachable through the public API, excluded from the theorems by the well-formedness of capacities, not counted as a finding. "
+                  "Trusted: Coq kernel; hand-written model (tied by differential runs, not by translation); std Vec/String/Arc; the driver's "
+                  "allocator as observer.")
     assumptions = ["64-bit target (usize::MAX = 2^64-1, isize::MAX = 2^63-1)",
                    "capacities reported by String/Vec::with_capacity(n) equal n (checked by the driver on every case)"]
     trusted_extra = ["std Vec/String/Arc (exercised, modelled as buffers with a freed flag and a strong count)",
